@@ -1,0 +1,26 @@
+"""Package teneva, module _verif: optional event tracer for verification.
+
+The tracer is off unless the environment variable TENEVA_VERIF is set to "1"
+when the package is imported. When it is off, "emit" returns immediately and
+nothing is recorded, so the library behaves exactly as without this module.
+
+"""
+import os
+
+
+ON = os.environ.get('TENEVA_VERIF') == '1'
+EVENTS = []
+
+
+def emit(name, **fields):
+    if not ON:
+        return
+    rec = {'ev': name}
+    rec.update(fields)
+    EVENTS.append(rec)
+
+
+def drain():
+    out = list(EVENTS)
+    del EVENTS[:]
+    return out
